@@ -241,12 +241,14 @@ def invariant(ctx):
       ctx.count('inv_paths', len(paths))
       bad = []
       probs = []
+      judged = {}
       for p in paths:
         d = p.state.E - p.state.S - p.state.L
         if not d.is_zero():
           if allowed_path(ctx, ci, m, p):
             continue
           bad.append((p, d))
+        judged[p.exit] = judged.get(p.exit, 0) + 1
         for x in p.state.problems:
           if x not in probs:
             probs.append(x)
@@ -259,7 +261,8 @@ def invariant(ctx):
         # such a path, discharged by `allowed_path` on the arrangement it was confirmed on) is a proof that the invariant
         # breaks: decided however the method is laid out
         ctx.ob('INV/%s' % ci.qualname, owner, p.node if p.node is not None else m.node, False, depends=deps,
-               definite=not p.state.problems and not probs and len(p.state.conds) <= 1, why=
+               # ... or the defect is non-zero on *every* path that leaves the method normally: whichever of them is feasible breaks the invariant
+               definite=not p.state.problems and not probs and (len(p.state.conds) <= 1 or (p.exit != 'raise' and sum(1 for q, _d in bad if q.exit == p.exit) == judged.get(p.exit))), why=
                'on a path ending in %s, %s.%s leaves end_step - start_step - len(events) = %r (len=%r, start=%r, end=%r): length and step range disagree' % (
                    p.exit, ci.qualname, n, d, p.state.L, p.state.S, p.state.E), construct='%s.%s keeps end_step - start_step == len (%s exit)' % (ci.qualname, n, p.exit))
       for (node, why) in probs[:3]:
@@ -313,6 +316,9 @@ def allowed_path(ctx, ci, m, p):
           return False
         if norm_text(val) == '%s.quantized_step' % v and not any(x is s for x in ast.walk(loop)):
           return False
+  # only the paths that *skip* the final _add_chord are infeasible; a path through it is judged like any other
+  if not any(t is tail[0].test and pol is False for t, pol in p.state.conds):
+    return False
   ctx.note('allow-listed path: ChordProgression.from_quantized_sequence without the final _add_chord is infeasible (prev_step < end_step by the break guard)')
   return True
 
